@@ -94,8 +94,9 @@ class C16(runner.Check):
 		"loci whose window starts exactly at position 0, or whose actual (odd) window ends "
 		"exactly at the chromosome end, are boundary cases the statement leaves open: either "
 		"keeping or omitting them is accepted",
-		"signal values are small integers / halves (float32-exact) and count thresholds lie "
-		"at quarter offsets, so sums and comparisons have no rounding ambiguity",
+		"signal values are small integers / halves (float32-exact; in 12 % of the worlds, "
+		"in-memory float64 tracks shifted by 1/3 so that no value is float32-exact) and count "
+		"thresholds lie at quarter offsets, so sums and comparisons have no rounding ambiguity",
 	]
 	real_vs_stub = {
 		"real": ["io.read_meme, io.extract_loci, _interleave_loci, _load_signals",
